@@ -85,10 +85,16 @@ def process_docs(run, cases, observations, stream="docs"):
                               "C01 %s document of profile %s is rejected by from_dict: %s" % (case["cls"], case["profile"], o["rejected_msg"]),
                               case=case, observation=o, generator="c01lib.gen_doc")
         else:
-            if case["tamper"] is None or case["tamper"] in ("drop-keys", "int-for-float", "unknown-key", "drop-nested", "no-force"):
+            if case["tamper"] is None or case["tamper"].startswith("key-order") or case["tamper"] in ("drop-keys", "int-for-float", "unknown-key", "drop-nested", "no-force"):
                 for sig, msg in c01lib.oracle_roundtrip(o["rt"], sig0):
                     run.violation(sig, "C01 %s (%s): %s" % (case["cls"], case["profile"], msg), case=case, observation=o["rt"],
                                   generator="c01lib.gen_doc")
+            if o.get("order_fail"):
+                f = o["order_fail"]
+                run.violation(dict(sig0, broken="prediction depends on the key order of the document", order=case["tamper"].split(":")[1]),
+                              "C01 %s (%s): the same document with its keys %s predicts differently: %s: %s vs %s (sub-models %s)" % (
+                                  case["cls"], case["profile"], case["tamper"].split(":")[1], f["date"], f["canonical_order"], f["this_order"], f["model_split"]),
+                              case={k: v for k, v in case.items() if k != "canon"}, observation=f, generator="c01lib.key_order_case")
             for f in o.get("routing_fail", [])[:1]:
                 run.violation(dict(sig0, broken="day routed against the stored maps", split="/".join(sorted({k[:2] for k in doc["submodels"]}))),
                               "C01 %s (%s): %s (month %d, weekday %d) is predicted by sub-model %s, the stored season / weekday maps "
@@ -306,6 +312,11 @@ def main():
             n = run.n(200, max(300, int(9000 * scale())))
             for k in range(n):
                 cases.append(c01lib.gen_doc(run.rng, k, splits, corner=(k % 97 == 13)))
+            # key order: every 4th constructor-made document again with all its mappings sorted / reversed / shuffled
+            modes = ["sorted", "reversed", "shuffled"]
+            extra = [c01lib.key_order_case(c, modes[(j // 4) % 3], run.rng) for j, c in enumerate(cases)
+                     if j % 4 == 1 and c.get("tamper") is None and not c.get("corner")]
+            cases += extra
             for i, c in enumerate(cases):
                 c["k"] = i
     chunk = 30
